@@ -37,6 +37,9 @@ REQUIRED_THEOREMS = [
     "boundary_closed", "boundary_closed_exactly_two", "faceToCells_each_once",
     "other_face_side_eq_spec", "common_face_eq_spec", "in_cell_index_eq_spec", "in_cell_face_index_eq_spec",
     "cell_to_edge_eq_spec", "edge_to_face_order_open", "edge_to_face_order_ring",
+    # round 3
+    "volumeGuards_clear_restores_fresh", "history_after_clear_eq_fresh", "meshGuards_wellGuarded", "meshGuards_init_covers_attrs",
+    "walkLoops_eq_model", "edgeMapDomain_eq_model",
 ]
 
 TRUSTED = [
@@ -45,7 +48,7 @@ TRUSTED = [
     "extract_boundary_of_volume, tied to the code by the correspondence of this run (all accessors × all elements, "
     "shuffled histories) and by the translated fragments (face table, sub-face slice, orientation rule, guard table)",
     "translator vlib/props/c03_translate.py (Python ast → Lean terms): guard/read/call/write events are taken in source "
-    "order and every branch is assumed to execute",
+    "order and every branch is assumed to execute; reads inside a try/except-Exception body are not events; `self.<property>` is a call",
     "the prepared containers (faces, edges) are inputs of the model; their completeness is a checked hypothesis "
     "(`conforming`), their construction belongs to C02",
     "floats: coordinates are dyadic rationals so that the determinant sign is exact in binary64",
@@ -59,7 +62,11 @@ RULE = ("conforming tet meshes (single, pair, fans around an edge/vertex, Kuhn g
         "at one vertex, pieces glued along one edge (non-manifold edge); positive/negative/mixed orientation; random numbering and cell "
         "vertex order); all accessors on all elements in shuffled order with clear() interleaved and a re-ask after clear(); both "
         "sort_neighborhoods settings; both boundary extractors; lazy histories over the FULL public API of the volume connectivity (own + inherited surface/polyline accessors) incl. every accessor as first query on a fresh instance "
-        "(thorough: every ordered pair of accessors). non-trivial = distinct mesh with >=2 cells and >=1 interior face (vol) or distinct "
+        "(thorough: every ordered pair of accessors). Round 3: raw cells as lists / tuples / numpy int32-int64 rows / from_arrays, integer "
+        "coordinates, user-declared faces and edges, numpy integer scalars as query arguments, the empty mesh; USED objects: queries, "
+        "in-place relabelling of cells, clear(), queries again; cached border lists read twice; boundary connectivity enabled twice; "
+        "standalone extractor twice on a mesh whose caches are filled; mesh-level accessors (boundary_*/interior_*/is_*_on_border/"
+        "enable_boundary_connectivity) inside the lazy histories; hexahedral grids (oracle only). non-trivial = distinct mesh with >=2 cells and >=1 interior face (vol) or distinct "
         "history with >=2 distinct accessors (lazy)")
 
 ERRS = {KeyError: "err:Key", IndexError: "err:Index", ValueError: "err:Value", TypeError: "err:Type"}
@@ -104,7 +111,14 @@ LAZY_ARGS = {  # accessor -> argument builder from (nV, nE, nF, nC, rng)
     "other_edge_end": lambda d, r: [r.randrange(d["nE"]), r.randrange(d["nV"])],
     "vertex_to_vertices": lambda d, r: [r.randrange(d["nV"])], "vertex_to_edges": lambda d, r: [r.randrange(d["nV"])],
     "edge_to_vertices": lambda d, r: [r.randrange(d["nE"])],
+    # mesh-level caches of VolumeMesh itself (prefix `mesh.`: second guard table)
+    "mesh.boundary_faces": lambda d, r: [], "mesh.interior_faces": lambda d, r: [], "mesh.boundary_edges": lambda d, r: [],
+    "mesh.interior_edges": lambda d, r: [], "mesh.boundary_vertices": lambda d, r: [], "mesh.interior_vertices": lambda d, r: [],
+    "mesh.is_face_on_border": lambda d, r: [r.randrange(d["nF"])], "mesh.is_vertex_on_border": lambda d, r: [r.randrange(d["nV"])],
+    "mesh.is_edge_on_border": lambda d, r: [r.randrange(d["nE"])], "mesh.is_tetrahedral": lambda d, r: [],
+    "mesh.is_cell_tet": lambda d, r: [r.randrange(d["nC"])], "mesh.enable_boundary_connectivity": lambda d, r: [],
 }
+MESH_PROPS = {"boundary_faces", "interior_faces", "boundary_edges", "interior_edges", "boundary_vertices", "interior_vertices"}
 
 
 @functools.lru_cache(maxsize=1)
@@ -112,6 +126,8 @@ def _alphabet():
     try:
         g = c03_translate.extract_guards()
         names = [g["names"][i] for i in g["alphabet"]]
+        gm = c03_translate.extract_guards(c03_translate.MESH_HIER, all_attrs=True, has_clear=False)
+        names += ["mesh." + gm["names"][i] for i in gm["alphabet"]]
     except Exception:  # noqa  (the broken site is reported by translate())
         names = list(LAZY_ARGS)
     return [n for n in names if n in LAZY_ARGS]
@@ -128,13 +144,30 @@ def cases(rng, tier):
     # fixed small cases first
     fixed = [{"V": [[0., 0., 0.], [1., 0., 0.], [0., 1., 0.], [0., 0., 1.]], "C": [[0, 1, 2, 3]], "tag": "single/positive"},
              {"V": [[0., 0., 0.], [1., 0., 0.], [0., 1., 0.], [0., 0., 1.]], "C": [[1, 0, 2, 3]], "tag": "single/negative"}]
+    fixed.append({"V": [], "C": [], "tag": "empty/positive"})
     for k in range(n_vol):
         if k < len(fixed): base = fixed[k]
         elif k % 12 == 5: base = GV.glue_along_edge(rng)          # non-manifold edge: order is only checked per fan
         else: base = GV.random_volume(rng, max_cells=rng.choice([6, 12, maxc]))
-        pairs, cf, cv = GV.query_samples(rng, base["V"], base["C"])
-        yield {"t": "vol", "V": base["V"], "C": base["C"], "tag": base["tag"], "sort": rng.random() < 0.85,
-               "order": rng.randrange(1 << 30), "pairs": pairs, "cf": cf, "cv": cv}
+        case = {"t": "vol", "V": base["V"], "C": base["C"], "tag": base["tag"], "sort": rng.random() < 0.85,
+                "order": rng.randrange(1 << 30)}
+        if base["C"]:
+            case["pairs"], case["cf"], case["cv"] = GV.query_samples(rng, base["V"], base["C"])
+            # round 3 families (each on a share of the cases)
+            r = rng.random()
+            if r < 0.30:
+                case["repr"] = rng.choice(GV.REPRS[1:])            # container / dtype of the raw cells and coordinates
+            elif r < 0.40:
+                case["decl_faces"], case["decl_edges"] = GV.declared_elements(rng, base["C"], rng.randint(1, 4))
+            if rng.random() < 0.25: case["npargs"] = True          # numpy integer scalars as query arguments
+            if rng.random() < 0.25:                                 # used object: query, relabel cells in place, clear(), query again
+                case["pre_swaps"] = GV.random_swaps(rng, base["C"], rng.randint(1, 3))
+        else:
+            case["pairs"], case["cf"], case["cv"] = [], [], []
+        yield case
+    for k in range(6 if tier == "quick" else 60):                  # hexahedral cells (oracle only)
+        g = GV.hex_grid(rng, rng.randint(1, 3), rng.randint(1, 2), rng.randint(1, 2))
+        yield {"t": "hex", "V": g["V"], "C": g["C"], "tag": g["tag"], "sort": True}
     alpha = _alphabet()
     small = [GV.random_volume(rng, max_cells=6) for _ in range(8)]
     k = 0
@@ -158,10 +191,31 @@ def cases(rng, tier):
 # ------------------------------------------------------------------------------------------------
 # implementation side
 # ------------------------------------------------------------------------------------------------
-def _build(case):
+def _initial_cells(case):
+    """cells the mesh is BUILT with: `pre_swaps` are undone (they are applied in place later, before clear())"""
+    return GV.apply_swaps(case["C"], list(reversed(case.get("pre_swaps", []))))
+
+
+def _build(case, final=True):
     import mouette as M
+    import numpy as np
     M.config.sort_neighborhoods = bool(case.get("sort", True))
-    return G.build_volume(case)
+    C = case["C"] if final else _initial_cells(case)
+    rep = case.get("repr", "list")
+    V = case["V"]
+    if rep == "intcoords" and not all(float(x).is_integer() for v in V for x in v): rep = "list"
+    if rep == "from_arrays":
+        return M.mesh.from_arrays(np.array(V, dtype=float), C=np.array(C, dtype=np.int64))
+    d = M.mesh.RawMeshData()
+    if rep == "intcoords": d.vertices += [M.Vec(*[int(x) for x in v]) for v in V]
+    else: d.vertices += [M.Vec(*v) for v in V]
+    if case.get("decl_edges"): d.edges += [tuple(e) for e in case["decl_edges"]]
+    if case.get("decl_faces"): d.faces += [list(f) for f in case["decl_faces"]]
+    if rep == "tuple": d.cells += [tuple(c) for c in C]
+    elif rep == "nprow64": d.cells += list(np.array(C, dtype=np.int64))
+    elif rep == "nprow32": d.cells += list(np.array(C, dtype=np.int32))
+    else: d.cells += [list(c) for c in C]
+    return M.mesh.VolumeMesh(d)
 
 
 def _ints(x):
@@ -197,34 +251,50 @@ def _observe(case):
     import mouette as M
     old = M.config.sort_neighborhoods
     try:
-        return _observe_vol(case) if case["t"] == "vol" else _observe_lazy(case)
+        return _observe_vol(case) if case["t"] == "vol" else _observe_hex(case) if case["t"] == "hex" else _observe_lazy(case)
     finally:
         M.config.sort_neighborhoods = old
 
 
-def _accessors(m):
+def _accessors(m, npargs=False):
+    import numpy as np
     c = m.connectivity
     nV, nE, nF, nC = len(m.vertices), len(m.edges), len(m.faces), len(m.cells)
+    I = (lambda i: (np.int64(i) if i % 2 else np.int32(i))) if npargs else (lambda i: i)
     q = {}
-    for f in range(nF): q[("F2C", f)] = (c.face_to_cells, f)
+    for f in range(nF): q[("F2C", f)] = (c.face_to_cells, I(f))
     for k in range(nC):
-        q[("C2F", k)] = (c.cell_to_face, k)
-        q[("C2C", k)] = (c.cell_to_cell, k)
-        q[("C2E", k)] = (c.cell_to_edge, k)
-    for v in range(nV): q[("V2C", v)] = (c.vertex_to_cell, v)
+        q[("C2F", k)] = (c.cell_to_face, I(k))
+        q[("C2C", k)] = (c.cell_to_cell, I(k))
+        q[("C2E", k)] = (c.cell_to_edge, I(k))
+    for v in range(nV): q[("V2C", v)] = (c.vertex_to_cell, I(v))
     for e in range(nE):
-        q[("E2C", e)] = (c.edge_to_cell, e)
-        q[("E2F", e)] = (c.edge_to_face, e)
+        q[("E2C", e)] = (c.edge_to_cell, I(e))
+        q[("E2F", e)] = (c.edge_to_face, I(e))
     return q
 
 
+LISTS = (("BF", "boundary_faces"), ("IF", "interior_faces"), ("BV", "boundary_vertices"),
+         ("IV", "interior_vertices"), ("BE", "boundary_edges"), ("IE", "interior_edges"))
+
+
 def _observe_vol(case):
-    m = _build(case)
+    m = _build(case, final=False)
     c = m.connectivity
+    if case.get("pre_swaps"):
+        # a USED object: everything is queried on the initial cells, then cells are relabelled in place (i-th <-> j-th vertex
+        # of a cell: same mesh, other local numbering / orientation), then clear() as its docstring asks; all that follows
+        # must describe the cell list as it is now
+        for fn, a in _accessors(m).values(): _call(fn, a)
+        for _, prop in LISTS: _call(lambda p=prop: list(getattr(m, p)))
+        for ci, i, j in case["pre_swaps"]:
+            cell = list(m.cells[ci]); cell[i], cell[j] = cell[j], cell[i]
+            m.cells[ci] = cell
+        c.clear()
     nV, nE, nF, nC = len(m.vertices), len(m.edges), len(m.faces), len(m.cells)
     obs = {"edges": [_ints(e) for e in m.edges], "faces": [_ints(f) for f in m.faces], "cells": [_ints(k) for k in m.cells],
            "nV": nV}
-    q = _accessors(m)
+    q = _accessors(m, case.get("npargs", False))
     keys = list(q)
     rnd = random.Random(case["order"])
     rnd.shuffle(keys)
@@ -244,22 +314,45 @@ def _observe_vol(case):
     obs["hist_changed"] = changed
     for sec, n in (("F2C", nF), ("C2F", nC), ("C2C", nC), ("C2E", nC), ("V2C", nV), ("E2C", nE), ("E2F", nE)):
         obs[sec] = [ans[(sec, i)] for i in range(n)]
-    obs["OFS"] = [[_norm(_call(c.other_face_side, k, f)) for f in (obs["C2F"][k] if isinstance(obs["C2F"][k], list) else [])]
+    import numpy as np
+    I = (lambda i: np.int64(i)) if case.get("npargs") else (lambda i: i)
+    obs["OFS"] = [[_norm(_call(c.other_face_side, I(k), I(f))) for f in (obs["C2F"][k] if isinstance(obs["C2F"][k], list) else [])]
                   for k in range(nC)]
-    obs["CF"] = [_norm(_call(c.common_face, a, b)) for a, b in case["pairs"]]
-    obs["ICF"] = [_norm(_call(c.in_cell_face_index, a, min(b, nF - 1))) for a, b in case["cf"]]
-    obs["ICI"] = [_norm(_call(c.in_cell_index, a, b)) for a, b in case["cv"]]
-    for name, prop in (("BF", "boundary_faces"), ("IF", "interior_faces"), ("BV", "boundary_vertices"),
-                       ("IV", "interior_vertices"), ("BE", "boundary_edges"), ("IE", "interior_edges")):
+    obs["CF"] = [_norm(_call(c.common_face, I(a), I(b))) for a, b in case["pairs"]]
+    obs["ICF"] = [_norm(_call(c.in_cell_face_index, I(a), I(min(b, nF - 1)))) for a, b in case["cf"]]
+    obs["ICI"] = [_norm(_call(c.in_cell_index, I(a), I(b))) for a, b in case["cv"]]
+    for name, prop in LISTS:
         obs[name] = _norm(_call(lambda p=prop: list(getattr(m, p))))
-    obs["isF"] = [_norm(_call(m.is_face_on_border, f)) for f in range(nF)]
+    obs["isF"] = [_norm(_call(m.is_face_on_border, I(f))) for f in range(nF)]
     obs["isF3"] = [_norm(_call(m.is_face_on_border, *obs["faces"][f])) for f in range(nF)]
-    obs["isV"] = [_norm(_call(m.is_vertex_on_border, v)) for v in range(nV)]
-    obs["isE"] = [_norm(_call(m.is_edge_on_border, e)) for e in range(nE)]
+    obs["isV"] = [_norm(_call(m.is_vertex_on_border, I(v))) for v in range(nV)]
+    obs["isE"] = [_norm(_call(m.is_edge_on_border, I(e))) for e in range(nE)]
     obs["isE2"] = [_norm(_call(m.is_edge_on_border, *obs["edges"][e])) for e in range(nE)]
     obs["bc"] = _boundary_connectivity(m)
     # the standalone extractor on a fresh instance
     obs["sb"] = _standalone(_build(case))
+    # used object: second read of the cached lists, second boundary connectivity, standalone extractor (twice) on the
+    # mesh whose caches are all filled
+    obs["lists_again"] = {name: _norm(_call(lambda p=prop: list(getattr(m, p)))) for name, prop in LISTS}
+    obs["bc2"] = _boundary_connectivity(m)
+    obs["sb_used"] = _standalone(m)
+    obs["sb_used2"] = _standalone(m)
+    return obs
+
+
+def _observe_hex(case):
+    m = _build(case)
+    c = m.connectivity
+    nV, nF, nC = len(m.vertices), len(m.faces), len(m.cells)
+    obs = {"faces": [_ints(f) for f in m.faces], "cells": [_ints(k) for k in m.cells], "nV": nV}
+    obs["F2C"] = [_norm(_call(c.face_to_cells, f)) for f in range(nF)]
+    obs["C2F"] = [_norm(_call(c.cell_to_face, k)) for k in range(nC)]
+    obs["C2C"] = [_norm(_call(c.cell_to_cell, k)) for k in range(nC)]
+    obs["V2C"] = [_norm(_call(c.vertex_to_cell, v)) for v in range(nV)]
+    obs["BF"] = _norm(_call(lambda: list(m.boundary_faces)))
+    obs["BV"] = _norm(_call(lambda: list(m.boundary_vertices)))
+    c.clear()
+    obs["C2C_again"] = [_norm(_call(c.cell_to_cell, k)) for k in range(nC)]
     return obs
 
 
@@ -301,11 +394,21 @@ def _lazy_outcome(fn, args):
         return _err(e), str(e)
 
 
+def _lazy_fn(m, name):
+    """the callable behind an operation name of a lazy history (`mesh.x`: VolumeMesh level, else connectivity)"""
+    if name.startswith("mesh."):
+        n = name[5:]
+        if n in MESH_PROPS: return lambda: list(getattr(m, n))
+        if n == "is_tetrahedral": return lambda: bool(m.is_tetrahedral())
+        return getattr(m, n)
+    return getattr(m.connectivity, name)
+
+
 def _observe_lazy(case):
     m = _build(case)
     out = []
     for op in case["ops"]:
-        st, val = _lazy_outcome(getattr(m.connectivity, op[0]), op[1:])
+        st, val = _lazy_outcome(_lazy_fn(m, op[0]), op[1:])
         out.append([st, val])
     return {"steps": out}
 
@@ -322,6 +425,8 @@ def _ll(ls):
 
 
 def model_request(case):
+    if case["t"] == "hex":
+        return None
     if case["t"] == "lazy":
         return "lazy " + " ".join([str(len(case["ops"]))] + [op[0] for op in case["ops"]])
     obs = observe(case)
@@ -511,9 +616,63 @@ def _F(key, what, detail=""):
     return {"key": key, "what": what, "detail": str(detail)[:500]}
 
 
+def _family_key(case, key):
+    """structural key of the case family a violation was seen in (used object / representation / declared elements)"""
+    rest = key[len("C03/"):]
+    if case.get("pre_swaps"): return "C03/used-after-clear/" + rest
+    if case.get("repr", "list") != "list": return f"C03/repr:{case['repr']}/" + rest
+    if case.get("decl_faces") or case.get("decl_edges"): return "C03/declared/" + rest
+    if case.get("npargs"): return "C03/numpy-args/" + rest
+    return key
+
+
 def oracle(case):
     obs = observe(case)
-    return _oracle_lazy(case, obs) if case["t"] == "lazy" else _oracle_vol(case, obs)
+    if case["t"] == "lazy": return _oracle_lazy(case, obs)
+    if case["t"] == "hex": return _oracle_hex(case, obs)
+    out = _oracle_vol(case, obs)
+    for f in out: f["key"] = _family_key(case, f["key"])
+    return out
+
+
+def _oracle_hex(case, obs):
+    """hexahedral cells (outside the tetrahedral statement proper: only what `_compute_cell_adj` / `_compute_adjacent_cell`
+    promise for any cell type): faces <-> cells incidence, neighbours across faces, border faces / vertices"""
+    out = []
+    C = obs["cells"]
+    nC, nF, nV = len(C), len(obs["faces"]), obs["nV"]
+    fc = GV.hex_face_cells(C)
+    fkey = [tuple(sorted(f)) for f in obs["faces"]]
+    if sorted(fkey) != sorted(fc.keys()):
+        return [_F("C03/hex/faces", "faces container of a hexahedral mesh is not the set of its quadrilateral cell faces")]
+    fid = {k: i for i, k in enumerate(fkey)}
+    for sec in ("F2C", "C2F", "C2C", "V2C", "C2C_again"):
+        errs = [x for x in obs[sec] if _is_err(x)]
+        if errs: return [_F(f"C03/hex/raises/{sec}/{errs[0]}", f"{sec} raises {errs[0]} on a hexahedral mesh")]
+    for f in range(nF):
+        if sorted(obs["F2C"][f]) != sorted(fc[fkey[f]]):
+            out.append(_F("C03/hex/f2c", "face_to_cells differs from direct inspection on a hexahedral mesh", f"face {f}")); break
+    for c in range(nC):
+        want = sorted(fid[tuple(sorted(C[c][i] for i in f))] for f in GV.HEX_FACES)
+        if sorted(obs["C2F"][c]) != want:
+            out.append(_F("C03/hex/c2f", "cell_to_face (as a set) differs from direct inspection on a hexahedral mesh", f"cell {c}")); break
+    for c in range(nC):
+        want = sorted({d for f in GV.HEX_FACES for d in fc[tuple(sorted(C[c][i] for i in f))] if d != c})
+        for sec in ("C2C", "C2C_again"):
+            if sorted(obs[sec][c]) != want:
+                out.append(_F("C03/hex/c2c" + ("/after-clear" if sec != "C2C" else ""), "cell_to_cell differs from direct inspection on a hexahedral mesh",
+                              f"cell {c}: {obs[sec][c]} vs {want}")); break
+        if out: break
+    for v in range(nV):
+        if sorted(obs["V2C"][v]) != [c for c in range(nC) if v in C[c]]:
+            out.append(_F("C03/hex/v2c", "vertex_to_cell differs from direct inspection on a hexahedral mesh", f"vertex {v}")); break
+    bf = sorted(fid[k] for k, cs in fc.items() if len(cs) == 1)
+    if _is_err(obs["BF"]) or sorted(obs["BF"]) != bf:
+        out.append(_F("C03/hex/border/faces", "boundary_faces of a hexahedral mesh are not the faces lying in one cell"))
+    bv = sorted({v for f in bf for v in fkey[f]})
+    if _is_err(obs["BV"]) or sorted(obs["BV"]) != bv:
+        out.append(_F("C03/hex/border/vertices", "boundary_vertices of a hexahedral mesh are not the vertices of its border faces"))
+    return out
 
 
 WARM = ["face_id", "edge_id", "face_to_cells", "cell_to_face", "cell_to_cell", "vertex_to_cell", "edge_to_cell",
@@ -529,9 +688,12 @@ def _oracle_lazy(case, obs):
     for w in WARM:
         try: getattr(ref.connectivity, w)(*[0 for _ in LAZY_ARGS[w](d, r0)][:3] if w != "face_id" else (0, 1, 2))
         except Exception: pass  # noqa
+    for n in sorted(MESH_PROPS):
+        try: list(getattr(ref, n))
+        except Exception: pass  # noqa
     for i, (op, (st, val)) in enumerate(zip(case["ops"], obs["steps"])):
         if op[0] == "clear": continue
-        rst, rval = _lazy_outcome(getattr(ref.connectivity, op[0]), op[1:])
+        rst, rval = _lazy_outcome(_lazy_fn(ref, op[0]), op[1:])
         sec = _SEC.get(op[0], "")
         if st != "ok" and rst == "ok":
             fresh = all(o[0] == "clear" for o in case["ops"][:i])
@@ -549,7 +711,7 @@ def _oracle_lazy(case, obs):
     return out
 
 
-_SEC = {"face_to_cells": "F2C", "cell_to_cell": "C2C", "vertex_to_cell": "V2C", "cell_to_edge": "C2E",
+_SEC = {**{"mesh." + n: "F2C" for n in MESH_PROPS}, "face_to_cells": "F2C", "cell_to_cell": "C2C", "vertex_to_cell": "V2C", "cell_to_edge": "C2E",
         "edge_to_cell": "E2C", "edge_to_face": "E2F"}
 
 
@@ -652,6 +814,13 @@ def _oracle_vol(case, obs):
     allpos = all(G.tet_sign(V, c) > 0 for c in C)
     out += _check_surface("bc", obs["bc"], bfaces, fkey, opp, P, True, V, bverts, bedges, ekey, obs)
     out += _check_surface("standalone", obs["sb"], bfaces, fkey, opp, P, allpos, V, bverts, bedges, ekey, obs)
+    # used object: the n-th call must satisfy what the first call on a fresh object satisfies
+    for name, again in obs["lists_again"].items():
+        if again != obs[name]:
+            out.append(_F(f"C03/history/border-lists/{name}", "a boundary/interior list changes between two reads on the same mesh", f"{obs[name]} then {again}"))
+    out += _check_surface("bc/second-call", obs["bc2"], bfaces, fkey, opp, P, True, V, bverts, bedges, ekey, obs)
+    out += _check_surface("standalone/used-mesh", obs["sb_used"], bfaces, fkey, opp, P, allpos, V, bverts, bedges, ekey, obs)
+    out += _check_surface("standalone/used-mesh-second-call", obs["sb_used2"], bfaces, fkey, opp, P, allpos, V, bverts, bedges, ekey, obs)
     return out
 
 
@@ -690,7 +859,8 @@ def _check_surface(name, s, bfaces, fkey, opp, P, must_be_outward, V, bverts, be
     K = f"C03/boundary/{name}"
     if "err" in s:
         return [_F(f"C03/raises/boundary/{name}/{s['err']}", f"boundary extraction ({name}) raises {s['err']}")]
-    m2b = dict(s["m2b_vertex"] if name == "bc" else s["m2b"]); b2m = dict(s["b2m_vertex"] if name == "bc" else s["b2m"])
+    kind = "bc" if name.startswith("bc") else "standalone"
+    m2b = dict(s["m2b_vertex"] if kind == "bc" else s["m2b"]); b2m = dict(s["b2m_vertex"] if kind == "bc" else s["b2m"])
     # vertex maps mutually inverse, onto the border vertices, numbering 0..n-1, same points
     if sorted(m2b) != bverts or sorted(b2m) != list(range(len(bverts))) or s["nV"] != len(bverts) \
             or any(b2m.get(i) != v for v, i in m2b.items()) or any(m2b.get(v) != i for i, v in b2m.items()) or not s["same_points"]:
@@ -711,9 +881,9 @@ def _check_surface(name, s, bfaces, fkey, opp, P, must_be_outward, V, bverts, be
     inward = [t for t in tris if _outward(P, t[0], t[1], t[2], opp[tuple(sorted(t))]) <= 0]
     if inward and must_be_outward:
         out.append(_F(f"{K}/orientation", f"boundary surface ({name}) is not oriented outwards"
-                      + (" although all cells are positively oriented" if name == "standalone" else ""),
+                      + (" although all cells are positively oriented" if kind == "standalone" else ""),
                       f"{len(inward)} of {len(tris)} faces point inward, e.g. {inward[0]} (opposite vertex {opp[tuple(sorted(inward[0]))]})"))
-    if name == "bc":
+    if kind == "bc":
         m2f = dict(s["m2b_face"]); b2f = dict(s["b2m_face"])
         if sorted(m2f) != bfaces or sorted(b2f) != list(range(len(bfaces))) or any(b2f.get(i) != f for f, i in m2f.items()) \
                 or any(tuple(sorted(tris[i])) != fkey[f] for i, f in b2f.items()):
@@ -732,6 +902,8 @@ def _check_surface(name, s, bfaces, fkey, opp, P, must_be_outward, V, bverts, be
 def nontrivial(case, obs):
     if case["t"] == "lazy":
         return len({o[0] for o in case["ops"]}) >= 2
+    if case["t"] == "hex":
+        return len(case["C"]) >= 2
     return len(case["C"]) >= 2 and any(len(v) == 2 for v in GV.face_cells(case["C"]).values())
 
 
@@ -739,8 +911,10 @@ def classify(case, obs):
     if case["t"] == "lazy":
         o = json.loads(obs)
         return ["lazy", f"lazy:len{min(len(case['ops']), 9)}", "lazy:first:" + case["ops"][0][0]] + ["lazy:outcome:" + s[0] for s in o["steps"]]
+    if case["t"] == "hex":
+        return ["hex", "hex:cells:" + str(min(len(case["C"]), 12))]
     n = len(case["C"])
-    size = "1" if n == 1 else "2-5" if n <= 5 else "6-20" if n <= 20 else "21-60" if n <= 60 else ">60"
+    size = "0" if n == 0 else "1" if n == 1 else "2-5" if n <= 5 else "6-20" if n <= 20 else "21-60" if n <= 60 else ">60"
     fc = GV.face_cells(case["C"])
     ks = ["vol", "vol:cells:" + size, "vol:fam:" + case["tag"].split("/")[0], "vol:orient:" + case["tag"].split("/")[1].split("+")[0],
           "vol:sort:" + str(case["sort"])]
@@ -750,13 +924,23 @@ def classify(case, obs):
     if any(closed.values()): ks.append("vol:has-interior-edge")
     bv = {v for k, cs in fc.items() if len(cs) == 1 for v in k}
     if len(bv) < len({v for c in case["C"] for v in c}): ks.append("vol:has-interior-vertex")
+    rep = case.get("repr", "list")
+    if rep == "intcoords" and not all(float(x).is_integer() for v in case["V"] for x in v): rep = "list"
+    ks.append("vol:repr:" + rep)
+    if case.get("decl_faces") or case.get("decl_edges"): ks.append("vol:declared-faces-edges")
+    if case.get("npargs"): ks.append("vol:numpy-int-arguments")
+    if case.get("pre_swaps"): ks.append("vol:used-object:relabel+clear")
+    ks += ["vol:used-object:second-boundary-connectivity", "vol:used-object:standalone-on-filled-caches"]
     return ks
 
 
 def describe(case):
     if case["t"] == "lazy":
         return {"t": "lazy", "tag": case["tag"], "cells": len(case["C"]), "ops": case["ops"]}
-    return {"t": "vol", "tag": case["tag"], "vertices": len(case["V"]), "cells": len(case["C"]), "sort": case["sort"]}
+    d = {"t": case["t"], "tag": case["tag"], "vertices": len(case["V"]), "cells": len(case["C"]), "sort": case["sort"]}
+    for k in ("repr", "npargs", "pre_swaps", "decl_faces", "decl_edges"):
+        if case.get(k): d[k] = case[k]
+    return d
 
 
 def shrink(case, still):
@@ -773,9 +957,24 @@ def shrink(case, still):
         progress = False
         for i in range(len(cur["C"])):
             D = cur["C"][:i] + cur["C"][i + 1:]
-            V2, D2 = GV.compact(cur["V"], D)
-            if GV.edge_manifold(cur["C"]) and not GV.edge_manifold(D2): continue
-            trial = dict(cur, V=V2, C=D2, pairs=[[0, 0]], cf=[[0, 0]], cv=[[0, D2[0][0]]])
+            used = sorted({v for c in D for v in c})
+            mp = {o: n for n, o in enumerate(used)}
+            V2 = [cur["V"][o] for o in used]; D2 = [[mp[v] for v in c] for c in D]
+            if cur["t"] == "hex":
+                trial = dict(cur, V=V2, C=D2)
+            else:
+                if GV.edge_manifold(cur["C"]) and not GV.edge_manifold(D2): continue
+                trial = dict(cur, V=V2, C=D2, pairs=[[0, 0]], cf=[[0, 0]], cv=[[0, D2[0][0]]])
+                if cur.get("pre_swaps"):
+                    trial["pre_swaps"] = [[ci - (ci > i), a, b] for ci, a, b in cur["pre_swaps"] if ci != i] or [[0, 0, 1]]
+                tri = set(GV.face_cells(D2).keys())
+                if cur.get("decl_faces") is not None:
+                    trial["decl_faces"] = [f2 for f2 in ([mp.get(v) for v in f] for f in cur["decl_faces"])
+                                           if None not in f2 and tuple(sorted(f2)) in tri]
+                    trial["decl_edges"] = [e2 for e2 in ([mp.get(v) for v in e] for e in cur.get("decl_edges", []))
+                                           if None not in e2 and any(e2[0] in t and e2[1] in t for t in tri)]
+                    if not trial["decl_faces"] and not trial["decl_edges"]:
+                        t0 = sorted(tri)[0]; trial["decl_faces"] = [[t0[1], t0[0], t0[2]]]
             if still(trial):
                 cur = trial; progress = True; break
     return cur
